@@ -43,6 +43,10 @@ if "--no-merge" not in sys.argv:
         run([sys.executable, "/verif/tools/gen_registry.py"]); run([sys.executable, "/verif/tools/gen_manifest.py"])
         left = run(["git", "-C", "/verif", "diff", "--name-only", "--diff-filter=U"])
         left = [f for f in left.split() if f not in ("MANIFEST.json", "lean/CoapVerif.lean", "lean/CoapVerif/Driver/All.lean", "KNOWN_FINDINGS.txt")]
+        for f in list(left):
+            if f == "vlib/tables.py":      # both sides append functions: union
+                t = re.sub(r"^(<<<<<<< .*|>>>>>>> .*)\n", "", open("/verif/" + f).read(), flags=re.M).replace("=======\n", "\n\n")
+                open("/verif/" + f, "w").write(t); left.remove(f)
         if left:
             sys.exit("merge conflict in %s: resolve in /verif, commit, then re-run with --no-merge" % left)
         run(["git", "-C", "/verif", "add", "-A"]); run(["git", "-C", "/verif", "commit", "-qm", "merge ws-" + pid])
